@@ -4,6 +4,8 @@ Allowlists for Dippy - known safe commands and transparent wrappers.
 
 from __future__ import annotations
 
+import re
+
 # === Simple Safe Commands ===
 # These are always safe regardless of arguments (except output redirects)
 
@@ -263,3 +265,51 @@ WRAPPER_COMMANDS = frozenset(
         "builtin",  # run shell builtin
     }
 )
+
+
+# Variables that decide which program runs or make a program load or run other
+# code: setting one changes what an otherwise harmless command executes
+EXECUTION_ENV_VARS = frozenset(
+    {
+        # the shell: command lookup, start-up files, tracing, word splitting
+        "PATH", "CDPATH", "HOME", "IFS", "ENV", "BASH_ENV", "SHELLOPTS", "BASHOPTS",
+        "PS4", "PROMPT_COMMAND", "BASH_FUNC", "GLOBIGNORE", "SHELL",
+        # the dynamic loader
+        "LD_PRELOAD", "LD_LIBRARY_PATH", "LD_AUDIT",
+        "DYLD_INSERT_LIBRARIES", "DYLD_LIBRARY_PATH", "DYLD_FRAMEWORK_PATH",
+        # interpreters
+        "PYTHONPATH", "PYTHONSTARTUP", "PYTHONHOME", "PYTHONINSPECT",
+        "PERL5LIB", "PERL5OPT", "PERLLIB", "RUBYLIB", "RUBYOPT",
+        "NODE_OPTIONS", "NODE_PATH", "JAVA_TOOL_OPTIONS", "_JAVA_OPTIONS",
+        # helpers that tools start
+        "PAGER", "MANPAGER", "EDITOR", "VISUAL", "BROWSER", "LESSOPEN", "LESSCLOSE",
+        "GIT_SSH", "GIT_SSH_COMMAND", "GIT_EXTERNAL_DIFF", "GIT_PAGER", "GIT_EDITOR",
+        "GIT_SEQUENCE_EDITOR", "GIT_ASKPASS", "SSH_ASKPASS", "GIT_EXEC_PATH",
+        "GIT_CONFIG_GLOBAL", "GIT_CONFIG_SYSTEM", "GIT_CONFIG_COUNT", "GIT_PROXY_COMMAND",
+        "TAR_OPTIONS", "RSYNC_RSH", "CVS_RSH",
+    }
+)
+
+# Directories a PATH may list without changing what the usual command names run
+SYSTEM_PATH_DIRS = frozenset(
+    {
+        "/bin", "/sbin", "/usr/bin", "/usr/sbin", "/usr/local/bin", "/usr/local/sbin",
+        "/opt/homebrew/bin", "/opt/homebrew/sbin",
+    }
+)
+
+_ASSIGNED_NAME = re.compile(r"([A-Za-z_][A-Za-z0-9_]*)(\+?=)(.*)", re.DOTALL)
+
+
+def sets_execution_var(word: str) -> str | None:
+    """The variable an assignment word NAME=value / NAME+=value sets, if it decides what runs.
+
+    A PATH made only of system directories is not reported.
+    """
+    m = _ASSIGNED_NAME.match(word)
+    if m is None or m.group(1) not in EXECUTION_ENV_VARS:
+        return None
+    name, op, value = m.groups()
+    if name == "PATH" and op == "=" and all(d in SYSTEM_PATH_DIRS for d in value.split(":")):
+        return None
+    return name
